@@ -27,6 +27,8 @@ use tinylfu_cached::cache::verif::{ClientState, Controller, Oracle, Role, RoleSt
 use crate::json::J;
 
 const STEP_TIMEOUT: Duration = Duration::from_secs(20);
+/// schedule points at which the stopped thread holds a lock (atomicity probes): no snapshot can be taken meanwhile
+const LOCK_POINTS: [&str; 6] = ["weight.update.mid", "weight.delete.mid", "sweep.entry", "store.update.mid", "pool.add.mid", "lfu.batch.mid"];
 
 #[derive(Clone)]
 pub struct MockClock(pub Arc<AtomicU64>);
@@ -343,7 +345,7 @@ impl Case {
     fn interesting(&self, label: &str, job: &str) -> bool {
         let window = matches!(label, "upsert.after_store_update" | "worker.put_ttl.after_store_insert" | "worker.drain.end");
         if window { return true; }
-        if self.cfg.points == "probe" && matches!(label, "weight.update.mid" | "weight.delete.mid" | "sweep.entry") { return true; }
+        if self.cfg.points == "probe" && LOCK_POINTS.contains(&label) { return true; }
         if self.cfg.points != "micro" && self.cfg.points != "probe" { return false; }
         match label {
             "call.entered" | "put.checked" | "delete.marked" | "read.hit" => true,
@@ -375,6 +377,22 @@ impl Case {
                 return J::A(vec![]);
             }
             if std::time::Instant::now() >= deadline { self.sweeper_at_point = false; return J::A(vec![J::I(8)]); }
+            thread::sleep(Duration::from_micros(50));
+        }
+    }
+
+    fn wait_consumer_point(&mut self, timeout: Duration) -> J {
+        let deadline = std::time::Instant::now() + timeout;
+        loop {
+            if let Some(label) = self.ctl.at_point(Role::Consumer) {
+                if !self.interesting(label, "") { self.ctl.step_point(Role::Consumer); thread::sleep(Duration::from_micros(20)); continue; }
+                return J::A(vec![J::I(7), J::S(label.to_string())]);
+            }
+            match self.ctl.role_state(Role::Consumer) {
+                RoleState::AtGate | RoleState::Dead(_) | RoleState::Exited => { self.ctl.set_stepping(Role::Consumer, false); return J::A(vec![]); }
+                _ => {}
+            }
+            if std::time::Instant::now() >= deadline { return J::A(vec![J::I(8)]); }
             thread::sleep(Duration::from_micros(50));
         }
     }
@@ -533,7 +551,7 @@ impl Case {
                 // one worker command in point-stepping mode: stops at the points inside the command (not inside done())
                 let state = self.ctl.role_state(Role::Worker);
                 // (a sweeper stopped at a probe point holds a lock the snapshot needs: go by the last snapshot then)
-                let queue_len = if self.sweeper_at_point && self.last_snap.is_some() { self.last_snap.as_ref().unwrap().queue_len } else { self.cache.verif_snapshot().queue_len };
+                let queue_len = if self.cfg.points == "probe" && self.last_snap.is_some() { self.last_snap.as_ref().unwrap().queue_len } else { self.cache.verif_snapshot().queue_len };
                 if state != RoleState::AtGate || queue_len == 0 || self.worker_at_point { skipped = true; }
                 else {
                     self.ctl.set_stepping(Role::Worker, true);
@@ -571,6 +589,35 @@ impl Case {
                 }
                 if self.ctl.sweeps_done() > self.sweeps_before { self.ctl.set_stepping(Role::Sweeper, false); self.sweeper_at_point = false; }
                 else { ret = J::A(vec![J::I(8)]); }
+            }
+            "drainp" => {
+                // one consumer batch in point-stepping mode: stops between two accesses of the batch (sketch write lock held)
+                let state = self.ctl.role_state(Role::Consumer);
+                let chan_len = if self.cfg.points == "probe" && self.last_snap.is_some() { self.last_snap.as_ref().unwrap().chan_len } else { self.cache.verif_snapshot().chan_len };
+                if state != RoleState::AtGate || chan_len == 0 { skipped = true; }
+                else {
+                    self.ctl.set_stepping(Role::Consumer, true);
+                    self.ctl.grant(Role::Consumer);
+                    ret = self.wait_consumer_point(self.step_timeout());
+                }
+            }
+            "rund" => {
+                if self.ctl.at_point(Role::Consumer).is_none() { skipped = true; } else {
+                    self.ctl.step_point(Role::Consumer);
+                    thread::sleep(Duration::from_micros(100));
+                    ret = self.wait_consumer_point(self.step_timeout());
+                }
+            }
+            "joind" => {
+                // lets the consumer finish its batch (stepping through every remaining point)
+                let deadline = std::time::Instant::now() + STEP_TIMEOUT;
+                loop {
+                    if self.ctl.at_point(Role::Consumer).is_some() { self.ctl.step_point(Role::Consumer); }
+                    match self.ctl.role_state(Role::Consumer) { RoleState::AtGate | RoleState::Dead(_) | RoleState::Exited => break, _ => {} }
+                    if std::time::Instant::now() >= deadline { ret = J::A(vec![J::I(8)]); break; }
+                    thread::sleep(Duration::from_micros(100));
+                }
+                self.ctl.set_stepping(Role::Consumer, false);
             }
             "joinw" => {
                 // waits for a worker step that was reported as still running
@@ -655,7 +702,12 @@ impl Case {
         }
         let consumer_gone = matches!(self.ctl.role_state(Role::Consumer), RoleState::Exited | RoleState::Dead(_));
         // a thread stopped at a probe point holds a lock the snapshot needs: keep the previous snapshot meanwhile
-        let lock_held = self.cfg.points == "probe" && (self.worker_at_point || self.sweeper_at_point || self.ctl.at_point(Role::Worker).is_some() || self.ctl.at_point(Role::Sweeper).is_some());
+        let mut lock_held = false;
+        if self.cfg.points == "probe" {
+            let mut roles = vec![Role::Worker, Role::Sweeper, Role::Consumer];
+            for tid in 0..self.cfg.clients { roles.push(Role::Client(tid)); }
+            lock_held = roles.into_iter().any(|r| self.ctl.at_point(r).map(|l| LOCK_POINTS.contains(&l)).unwrap_or(false));
+        }
         let snap = if lock_held && self.last_snap.is_some() { self.last_snap.clone().unwrap() } else { self.cache.verif_snapshot() };
         self.last_snap = Some(snap.clone());
         let acks: Vec<J> = self.acks.iter().map(|a| J::I(poll_ack(a).unwrap_or(0))).collect();
@@ -685,6 +737,7 @@ impl Case {
         // let everything run to completion so that threads can be joined
         self.ctl.set_stepping(Role::Worker, false);
         self.ctl.set_stepping(Role::Sweeper, false);
+        self.ctl.set_stepping(Role::Consumer, false);
         for tid in 0..self.cfg.clients { self.ctl.set_stepping(Role::Client(tid), false); }
         self.ctl.free_run(Role::Worker);
         self.ctl.free_run(Role::Consumer);
